@@ -218,3 +218,116 @@ def min_set_cover_weight(universe, subsets, weights):
                 best = w
                 best_sel = [i for i in range(n) if mask >> i & 1]
     return best, best_sel
+
+
+# ---------------------------------------------------------------- C06 sequential references
+def _path(succ, a, b):
+    """Some path a -> b (list of nodes) by DFS, or None."""
+    prev = {a: None}
+    st = [a]
+    while st:
+        x = st.pop()
+        if x == b:
+            break
+        for y in succ.get(x, []):
+            if y not in prev:
+                prev[y] = x
+                st.append(y)
+    if b not in prev:
+        return None
+    p = [b]
+    while prev[p[-1]] is not None:
+        p.append(prev[p[-1]])
+    return p[::-1]
+
+
+def _reach_without(succ, a, b, banned):
+    seen = {a}
+    st = [a]
+    while st:
+        x = st.pop()
+        if x == b:
+            return True
+        for y in succ.get(x, []):
+            if (x, y) == banned or y in seen:
+                continue
+            seen.add(y)
+            st.append(y)
+    return b in seen
+
+
+def bridges_in_order(succ, a, b):
+    """All edges lying on every a -> b path, in path order (edge-deletion reachability)."""
+    p = _path(succ, a, b)
+    if p is None:
+        return None
+    out = []
+    for e in zip(p[:-1], p[1:]):
+        if not _reach_without(succ, a, b, e):
+            out.append(e)
+    return out
+
+
+def safe_sequence_ref(succ, source, sink, item):
+    """Reference for safetypathcovers.safe_sequences on one item (edge tuple or list of edges)."""
+    if isinstance(item, tuple):
+        u, v, mid = item[0], item[-1], [item]
+    else:
+        u, v, mid = item[0][0], item[-1][-1], list(item)
+    left = bridges_in_order(succ, source, u)
+    right = bridges_in_order(succ, v, sink)
+    return left + mid + right
+
+
+def safe_path_ref(succ, pred, e):
+    """Reference for safetypathcovers.safe_paths on one edge: univocal extension."""
+    u, v = e
+    left = []
+    while len(pred.get(u, [])) == 1:
+        x = pred[u][0]
+        left.append((x, u))
+        u = x
+    path = left[::-1] + [e]
+    while len(succ.get(v, [])) == 1:
+        x = succ[v][0]
+        path.append((v, x))
+        v = x
+    return path
+
+
+def contains_subsequence(route_edges, seq):
+    i = 0
+    for e in route_edges:
+        if i < len(seq) and e == seq[i]:
+            i += 1
+    return i == len(seq)
+
+
+# ---------------------------------------------------------------- product reachability (walks)
+def exists_walk(succ, source, sink, seqs, must_use=None, must_fail=None):
+    """Is there a source->sink walk that contains every sequence of ``seqs`` as a subsequence
+    (greedy matching), traverses every edge of ``must_use`` at least once, and does NOT contain
+    ``must_fail`` (a sequence) as a subsequence?  BFS over (node, matched prefixes, used flags)."""
+    seqs = [list(map(tuple, s)) for s in seqs]
+    must_use = [tuple(e) for e in (must_use or [])]
+    fail = list(map(tuple, must_fail)) if must_fail is not None else None
+    start = (source, tuple(0 for _ in seqs), tuple(False for _ in must_use), 0)
+    seen = {start}
+    st = [start]
+    while st:
+        node, ps, used, pf = st.pop()
+        if node == sink:
+            if all(p == len(s) for p, s in zip(ps, seqs)) and all(used) and (fail is None or pf < len(fail)):
+                return True
+        for y in succ.get(node, []):
+            e = (node, y)
+            nps = tuple(p + 1 if p < len(s) and s[p] == e else p for p, s in zip(ps, seqs))
+            nused = tuple(u or (e == m) for u, m in zip(used, must_use))
+            npf = pf
+            if fail is not None and pf < len(fail) and fail[pf] == e:
+                npf = pf + 1
+            stt = (y, nps, nused, npf)
+            if stt not in seen:
+                seen.add(stt)
+                st.append(stt)
+    return False
